@@ -245,13 +245,53 @@ func (in *inst) step(c *vt.Ctx, st Step) *vt.Deviation {
 	}
 	checkOthers := func() *vt.Deviation {
 		for i, o := range in.sides {
-			if i != st.On && in.state(o) != others[i] {
+			if i < len(others) && i != st.On && in.state(o) != others[i] {
 				return mk("state-leak", fmt.Sprintf("user/umask/cwd of side %d (dir %q) changed from %q to %q", i, o.dir, others[i], in.state(o)))
 			}
 		}
 		return nil
 	}
 	switch st.Set {
+	case "sub":
+		// a view created in the middle of a history, from the parent or from another view:
+		// creating it changes nobody's user, umask or working directory - not the receiver's either
+		if len(in.sides) >= 5 {
+			return nil
+		}
+		if !in.viewable(path.Join("/", s.dir, st.Op.P)) {
+			// the permission bits of a view's directory and of its ancestors are not traversed
+			// through the view (as for a chroot): the comparison needs them to let everybody pass
+			c.Label("sub-skipped:permissions-on-the-way")
+			return nil
+		}
+		before := in.state(s)
+		sub, err := s.v.Sub(st.Op.P)
+		if got := in.state(s); got != before {
+			return mk("state-leak", fmt.Sprintf("Sub(%q) changed the receiver's own user/umask/cwd from %q to %q", st.Op.P, before, got))
+		}
+		if dev := checkOthers(); dev != nil {
+			return dev
+		}
+		if err != nil {
+			return nil
+		}
+		abs := path.Join("/", s.dir, st.Op.P)
+		if abs == "/" {
+			abs = ""
+		}
+		in.sides = append(in.sides, &side{v: sub, r: fsx.NewRunner(sub), dir: abs, cwd: "/", umask: s.umask, user: s.user})
+		in.qr = append(in.qr, fsx.NewRunner(in.q))
+		// the first call sets the view's working directory through the view: "/" or, to meet
+		// whatever the view inherited, the receiver's own current directory
+		first := "/"
+		if st.Val == 1 {
+			first = s.cwd
+		}
+		if dev := in.step(c, Step{On: len(in.sides) - 1, Op: fsx.Op{K: "Chdir", P: first}}); dev != nil || first == "/" {
+			return dev
+		}
+		// (that directory need not exist in the view: "/" then is the first successful Chdir)
+		return in.step(c, Step{On: len(in.sides) - 1, Op: fsx.Op{K: "Chdir", P: "/"}})
 	case "umask":
 		_ = s.v.SetUMask(fs.FileMode(st.Val))
 		s.umask = st.Val
@@ -369,6 +409,22 @@ func (in *inst) detach(c *vt.Ctx, st Step, mk func(clause, detail string) *vt.De
 	return nil
 }
 
+// viewable: abs and every ancestor of it are directories everybody may read and search.
+func (in *inst) viewable(abs string) bool {
+	u := in.q.User()
+	_ = in.q.SetUser(in.users2[0])
+	defer func() { _ = in.q.SetUser(u) }()
+	for p := abs; ; p = path.Dir(p) {
+		fi, err := in.q.Lstat(p)
+		if err != nil || !fi.IsDir() || fi.Mode().Perm()&0o555 != 0o555 {
+			return err != nil && p == abs // a missing directory: Sub fails on both sides, nothing is created
+		}
+		if p == "/" {
+			return true
+		}
+	}
+}
+
 func (in *inst) close() {
 	for _, s := range in.sides {
 		s.r.CloseAll()
@@ -435,9 +491,19 @@ func TestCheck(t *testing.T) {
 		defer in.close()
 		setters, mutView, mutParent := 0, 0, 0
 		for n := rapid.IntRange(1, 40).Draw(t, "n"); n > 0; n-- {
-			on := rapid.IntRange(0, len(cs.Views)).Draw(t, "on")
+			on := rapid.IntRange(0, len(in.sides)-1).Draw(t, "on")
 			var steps []Step
-			switch rapid.IntRange(0, 9).Draw(t, "what") {
+			switch rapid.IntRange(0, 10).Draw(t, "what") {
+			case 10:
+				on = rapid.IntRange(0, len(in.sides)-1).Draw(t, "sub-on")
+				dirs := []string{"/", "/a", "/e", "/missing"}
+				if in.sides[on].dir == "" {
+					dirs = []string{"/w/d", "/w/d/e", "/w/d/a", "/w", "/w/missing"}
+				}
+				if in.sides[on].dir == "/w" {
+					dirs = []string{"/d", "/d/e", "/"}
+				}
+				steps = []Step{{On: on, Set: "sub", Op: fsx.Op{P: rapid.SampledFrom(dirs).Draw(t, "sub-dir")}, Val: rapid.IntRange(0, 1).Draw(t, "sub-first")}}
 			case 0:
 				steps = []Step{{On: on, Set: "umask", Val: rapid.SampledFrom([]int{0, 0o022, 0o077, 0o027}).Draw(t, "umask")}}
 			case 1:
